@@ -18,6 +18,7 @@ type engCfg struct {
 	multiThread bool
 	bigLedger   bool // few travellers, many flights: ledgers beyond 100 entries
 	trialDays   int  // first days without debiting
+	strictDaily bool // C17: exactly one update per day, same-day in-order check-ins, no traveller close/reopen
 }
 
 type plannedTrip struct {
@@ -85,6 +86,7 @@ func pickEngParams(rng *Rng, cfg engCfg) flap.FlapParams {
 
 func genEngine(rng *Rng, workdir string, proj string, cfg engCfg) *engSession {
 	s := newEngSession(workdir, proj)
+	s.strictDaily = cfg.strictDaily
 	p := pickEngParams(rng, cfg)
 	s.setParams(p)
 	used := map[string]bool{}
@@ -115,13 +117,15 @@ func genEngine(rng *Rng, workdir string, proj string, cfg engCfg) *engSession {
 		if cfg.restarts && rng.Chance(1, 4) {
 			s.restart()
 		}
-		if rng.Chance(24, 25) {
+		if cfg.strictDaily {
+			s.update(now)
+		} else if rng.Chance(24, 25) {
 			s.update(now)
 			if rng.Chance(1, 30) {
 				s.update(now) // a second update on the same day
 			}
 		}
-		if rng.Chance(1, 40) {
+		if !cfg.strictDaily && rng.Chance(1, 40) {
 			s.update(now + uint64(rng.Range(1, 86399))) // not a day start: refused
 		}
 		debit := d >= cfg.trialDays
@@ -218,18 +222,18 @@ func genEngine(rng *Rng, workdir string, proj string, cfg engCfg) *engSession {
 					fs[0].Start = flap.EpochTime(day*86400 + 86399)
 					fs[0].End = fs[0].Start + 5000
 				}
-				if rng.Chance(1, 15) && n > 1 {
+				if !cfg.strictDaily && rng.Chance(1, 15) && n > 1 {
 					fs[0], fs[1] = fs[1], fs[0]
 				}
-				if rng.Chance(1, 25) {
+				if !cfg.strictDaily && rng.Chance(1, 25) {
 					// an old flight reported late (out of order)
 					fs = []flap.VerifFlight{mk(day-uint64(rng.Range(1, 9)), sec, a, rng.Intn(nAir), dist())}
 				}
 				s.submit(i, fs, day*86400+uint64(rng.Intn(int(sec)+1)), debit && !rng.Chance(1, 12))
-			case r < 7:
+			case r < 7 && !cfg.strictDaily:
 				s.endTrip(i)
 				s.checkTrav(i)
-			case r < 8:
+			case r < 8 && !cfg.strictDaily:
 				s.reopenTrip(i)
 				s.checkTrav(i)
 			case r < 9:
@@ -237,7 +241,7 @@ func genEngine(rng *Rng, workdir string, proj string, cfg engCfg) *engSession {
 			}
 		}
 		day++
-		if rng.Chance(1, 14) {
+		if !cfg.strictDaily && rng.Chance(1, 14) {
 			day += uint64(rng.Range(1, 4)) // skipped days
 		}
 	}
